@@ -149,7 +149,7 @@ func (e *Engine) VerifyFunction(fn *ssa.Function) (res *FuncResult) {
 			}
 		}
 		for _, g := range append(append([]MarkSpec{}, ct.GhostSets...), ct.GhostClrs...) {
-			if fx.anchorHits[g.Glob] == 0 {
+			if fx.anchorHits[g.Glob] == 0 && !g.Wild {
 				fx.obls = append(fx.obls, &Obligation{Name: fx.oblName("assert", g.Label+"@unmatched-ghost-anchor"), Class: "assert", Func: e.shortName(fn),
 					Status: "failed", Solver: "govc-structural", Detail: "ghost anchor @" + g.Glob + " matches no event of the function"})
 			}
